@@ -21,6 +21,7 @@ type Path struct {
 	Closed bool            // ended by returning to the start block (loop back edge)
 
 	phi   map[*ssa.Phi]ssa.Value
+	enter map[*ssa.BasicBlock]int // how often each loop head was entered on this path
 	known map[string]bool
 	eq    map[string]constant.Value
 	neq   map[string][]constant.Value
@@ -63,8 +64,30 @@ func (p *Path) canon(v ssa.Value) string {
 		if x.Op == token.NOT {
 			return "!" + p.canon(x.X)
 		}
+		if x.Op == token.MUL {
+			if k, ok := stableFieldLoad(x); ok {
+				return k
+			}
+		}
 	}
-	return fmt.Sprintf("%s@%p", v.Name(), v)
+	return fmt.Sprintf("%s@%p#%d", v.Name(), v, p.epoch(v))
+}
+
+// epoch distinguishes values computed in different iterations of a loop that
+// a path walks through more than once: what was learnt about a value of one
+// iteration says nothing about the same instruction in the next.
+func (p *Path) epoch(v ssa.Value) int {
+	in, ok := v.(ssa.Instruction)
+	if !ok || in.Block() == nil || len(p.enter) == 0 {
+		return 0
+	}
+	e := 0
+	for h, k := range p.enter {
+		if h == in.Block() || h.Dominates(in.Block()) {
+			e += k
+		}
+	}
+	return e
 }
 
 // Eval evaluates a boolean value along the path when it is determined by
@@ -163,12 +186,16 @@ func (p *Path) clone() *Path {
 		Instrs: append([]ssa.Instruction(nil), p.Instrs...),
 		Conds:  append([]Fact(nil), p.Conds...),
 		phi:    make(map[*ssa.Phi]ssa.Value, len(p.phi)),
+		enter:  make(map[*ssa.BasicBlock]int, len(p.enter)),
 		known:  make(map[string]bool, len(p.known)),
 		eq:     make(map[string]constant.Value, len(p.eq)),
 		neq:    make(map[string][]constant.Value, len(p.neq)),
 	}
 	for k, v := range p.phi {
 		q.phi[k] = v
+	}
+	for k, v := range p.enter {
+		q.enter[k] = v
 	}
 	for k, v := range p.known {
 		q.known[k] = v
@@ -233,6 +260,9 @@ func EnumPathsSeed(start *ssa.BasicBlock, idx int, limit int, maxVisits int, see
 		visited[b]++
 		defer func() { visited[b]-- }()
 		p.Blocks = append(p.Blocks, b)
+		if isLoopHead(b) && !(b == start && from == nil) {
+			p.enter[b]++
+		}
 		if from != nil && !isLoopHead(b) {
 			// phis of loop heads stay symbolic: the value entering from outside
 			// the loop is not the value of later iterations
@@ -286,7 +316,11 @@ func EnumPathsSeed(start *ssa.BasicBlock, idx int, limit int, maxVisits int, see
 			}
 		}
 	}
-	p := &Path{phi: map[*ssa.Phi]ssa.Value{}, known: map[string]bool{}, eq: map[string]constant.Value{}, neq: map[string][]constant.Value{}}
+	startIsHead := isLoopHead(start)
+	p := &Path{phi: map[*ssa.Phi]ssa.Value{}, enter: map[*ssa.BasicBlock]int{}, known: map[string]bool{}, eq: map[string]constant.Value{}, neq: map[string][]constant.Value{}}
+	if startIsHead {
+		p.enter[start] = 1 // counted here so that seeded assumptions about the start block's phis keep their key
+	}
 	if seed != nil {
 		seed(p)
 	}
@@ -387,4 +421,58 @@ func (p *Path) HoldsRaw(op token.Token, isX func(ssa.Value) bool, isC func(ssa.V
 		}
 	}
 	return false
+}
+
+// stableFieldLoad recognises a load of a field reached from a parameter
+// through field selections only (p.f.g), of a field the function itself never
+// stores to: every such load in one activation reads the same value, so all
+// of them share one key regardless of position and loop iteration.
+func stableFieldLoad(ld *ssa.UnOp) (string, bool) {
+	fa, ok := ld.X.(*ssa.FieldAddr)
+	if !ok {
+		return "", false
+	}
+	key := ""
+	var base ssa.Value = fa
+	for {
+		f, ok := base.(*ssa.FieldAddr)
+		if !ok {
+			break
+		}
+		key = fmt.Sprintf(".%d%s", f.Field, key)
+		base = f.X
+	}
+	// the base may be a load of the cell a captured parameter/receiver was spilled to
+	if u, ok := base.(*ssa.UnOp); ok && u.Op == token.MUL {
+		if c := Cell(u.X); c != nil {
+			st := CellStores(c)
+			if len(st) == 1 {
+				base = st[0].Val
+			}
+		}
+	}
+	par, ok := base.(*ssa.Parameter)
+	if !ok {
+		return "", false
+	}
+	// no store to the same field (by index and struct type) anywhere in the function or its closures
+	fn := ld.Parent()
+	root := fn
+	for root.Parent() != nil {
+		root = root.Parent()
+	}
+	for _, g := range DeepFuncs(root) {
+		for _, b := range g.Blocks {
+			for _, in := range b.Instrs {
+				st, ok := in.(*ssa.Store)
+				if !ok {
+					continue
+				}
+				if f2, ok := st.Addr.(*ssa.FieldAddr); ok && f2.Field == fa.Field && f2.X.Type() == fa.X.Type() {
+					return "", false
+				}
+			}
+		}
+	}
+	return fmt.Sprintf("stable(%s@%p%s)", par.Name(), par, key), true
 }
